@@ -900,7 +900,7 @@ def rule_graph_rank(ctx):
         if not all(o.kind == 'call' and b.calls[o.key].name == 'next' for o in vo):
             good = False
             why = why or 'rank written from %s' % b.describe_origins(vo)
-    R.ob('G4-permutation', b.path, good, 'the reordering step only re-assigns ranks it read from the affected nodes (no arithmetic, no constants)' if good else why, ctx.where(b), props=('C10',))
+    R.ob('G4-permutation', b.path, good, 'the reordering step only re-assigns ranks it read from the affected nodes (no arithmetic, no constants)' if good else why, ctx.where(b), props=('C10', 'C07', 'C04'))
     # lock-step pushes
     loops = []
     for nx in b.find_calls(lambda c: c.name == 'next'):
@@ -919,7 +919,7 @@ def rule_graph_rank(ctx):
         loops.append((nx, sorted(targets), ok))
     good = len(loops) >= 2 and all(l[2] for l in loops) and len({tuple(l[1]) for l in loops}) == 1 and all(len(l[1]) == 2 for l in loops)
     R.ob('G4-lockstep', b.path, good, 'keys and ranks of both change sets are collected in lock-step (one key and one rank per node)' if good
-         else 'keys and ranks are not collected pairwise for every affected node', ctx.where(b), props=('C10',))
+         else 'keys and ranks are not collected pairwise for every affected node', ctx.where(b), props=('C10', 'C07', 'C04'))
     # N3: each change set is sorted by the rank component of its (key, rank) pairs
     for c in b.find_calls(lambda c: c.qname.startswith('core::slice::sort')):
         if c.qname not in ('core::slice::sort_unstable_by_key', 'core::slice::sort_by_key'):
@@ -953,11 +953,11 @@ def rule_graph_rank(ctx):
                         key_idx = int(next(iter(idxs)))
         ok = rank_idx is not None and key_idx == rank_idx
         R.ob('N3-sort-key', b.path + '#' + b.describe_origins(frozenset(o for o in b.orig_operand(c.args[0]))), ok, 'the change set is sorted by its rank component (unique old ranks)' if ok
-             else 'the change set is sorted by tuple field %s, but the rank is field %s: nodes inside a change set lose their relative order' % (key_idx, rank_idx), ctx.where(b, c.bb), props=('C16', 'C10'))
+             else 'the change set is sorted by tuple field %s, but the rank is field %s: nodes inside a change set lose their relative order' % (key_idx, rank_idx), ctx.where(b, c.bb), props=('C16', 'C10', 'C07', 'C04'))
     srts = [c for c in b.find_calls(lambda c: c.qname in ('core::slice::sort_unstable_by_key', 'core::slice::sort_by_key'))]
-    R.floor('N3-sort-key', 'sorted change sets in the reordering step', len(srts), 2, props=('C10', 'C16'))
+    R.floor('N3-sort-key', 'sorted change sets in the reordering step', len(srts), 2, props=('C10', 'C16', 'C07', 'C04'))
     plain = [c for c in b.find_calls(lambda c: c.qname in ('core::slice::sort_unstable', 'core::slice::sort'))]
-    R.ob('G4-ranks-sorted', b.path, len(plain) == 1, 'the pooled ranks are sorted ascending before they are handed out' if len(plain) == 1 else 'the pooled ranks are not sorted before reassignment', ctx.where(b), props=('C10',))
+    R.ob('G4-ranks-sorted', b.path, len(plain) == 1, 'the pooled ranks are sorted ascending before they are handed out' if len(plain) == 1 else 'the pooled ranks are not sorted before reassignment', ctx.where(b), props=('C10', 'C07', 'C04'))
 
 
 # ------------------------------------------------------------------------------------------------
@@ -1093,7 +1093,7 @@ def rule_graph_cycle(ctx):
         res[order] = fc.bb in seen
     good = res['lt'] and not res['gt']
     R.ob('C10-window', ae.path, good, 'the search/reorder runs exactly when rank(dst) < rank(src) (the new edge points backwards in the order)' if good
-         else 'search/reorder: runs when rank(dst)<rank(src): %s; runs when rank(dst)>rank(src): %s' % (res['lt'], res['gt']), ctx.where(ae, fc.bb), props=('C10', 'C07'))
+         else 'search/reorder: runs when rank(dst)<rank(src): %s; runs when rank(dst)>rank(src): %s' % (res['lt'], res['gt']), ctx.where(ae, fc.bb), props=('C10', 'C07', 'C04'))
     # decision table inside the forward search: child rank ? bound
     _dfs_table(ctx, g, dfs, bound_param=dfs.argc, forward=True)
     bw = [c for c in ae.calls.values() if F.callee_body(c) is not None and F.callee_body(c).crate == 'pie_graph' and c.bb != fc.bb and not ae.blocks[c.bb]['cleanup']
@@ -1105,14 +1105,14 @@ def rule_graph_cycle(ctx):
         bound = ae.orig_operand(bc.args[-1])
         bnode = strip_path(_slot_key_of(ae, frozenset(Origin(o.kind, o.key, ()) for o in bound), g))
         good = is_param(start, 2) and is_param(bnode, 3) and all(('f', g['rank']) in o.path for o in bound)
-        R.ob('C10-backward-args', ae.path, good, 'the backward search starts at src and is bounded by rank(dst)' if good else 'backward search arguments are not (src, rank(dst))', ctx.where(ae, bc.bb), props=('C10',))
+        R.ob('C10-backward-args', ae.path, good, 'the backward search starts at src and is bounded by rank(dst)' if good else 'backward search arguments are not (src, rank(dst))', ctx.where(ae, bc.bb), props=('C10', 'C07', 'C04'))
         _dfs_table(ctx, g, F.callee_body(bc), bound_param=F.callee_body(bc).argc, forward=False)
         # reorder receives (forward set, backward set) in the callee's parameter order and follows both searches
         ro = getattr(ctx, 'reorder', None)
         if ro is not None:
             rc = [c for c in ae.calls.values() if F.callee_body(c) is not None and F.callee_body(c).id == ro.id]
             good = len(rc) == 1 and ctx.base_call_bbs(ae.orig_operand(rc[0].args[1])) == {fc.bb} and ctx.base_call_bbs(ae.orig_operand(rc[0].args[2])) == {bc.bb}
-            R.ob('C10-reorder-args', ae.path, good, 'the reordering step is given the forward and the backward change set in that order' if good else 'reordering step receives its change sets swapped or from elsewhere', ctx.where(ae), props=('C10',))
+            R.ob('C10-reorder-args', ae.path, good, 'the reordering step is given the forward and the backward change set in that order' if good else 'reordering step receives its change sets swapped or from elsewhere', ctx.where(ae), props=('C10', 'C07', 'C04'))
             if ro is not None:
                 # backward set is laid out before the forward set: first loop pushes items derived from param 3 (backward), second from param 2
                 nxs = sorted(ro.find_calls(lambda c: c.name == 'next' and any(p.qname == 'std::vec::Vec::push' and c.bb in ctx.base_call_bbs(ro.orig_operand(p.args[1])) for p in ro.calls.values())), key=lambda c: c.bb)
@@ -1137,7 +1137,7 @@ def rule_graph_cycle(ctx):
                         first_is_bwd = order[1] == (3,)
                     good = first_is_bwd is True
                 R.ob('C10-reorder-layout', ro.path, good, 'the nodes that reach src (backward set) are laid out before the nodes reachable from dst (forward set)' if good
-                     else 'the two change sets are not laid out backward-set-first (the new edge would point backwards in the order)', ctx.where(ro), props=('C10',))
+                     else 'the two change sets are not laid out backward-set-first (the new edge would point backwards in the order)', ctx.where(ro), props=('C10', 'C07', 'C04'))
     else:
         R.undecided('C10-backward-args', ae.path, 'cannot identify the backward search call (%d candidates)' % len(bw), ctx.where(ae), props=('C10',))
 
@@ -1149,7 +1149,7 @@ def _dfs_table(ctx, g, dfs, bound_param, forward):
     fld = g['children'] if forward else g['parents']
     used = {n for a, n in fields_used(F, dfs) if a == g['noderec'] and n in g['adj_fields']}
     R.ob('C10-dfs-side', dfs.path, used == {fld}, 'the %s search walks the %s sets' % ('forward' if forward else 'backward', fld) if used == {fld} else 'search walks %s' % sorted(used),
-         ctx.where(dfs), props=('C10', 'C07') if forward else ('C10',))
+         ctx.where(dfs), props=('C10', 'C07', 'C04') if forward else ('C10', 'C07', 'C04'))
 
     def is_bound(os_):
         return is_param(os_, bound_param)
@@ -1175,7 +1175,7 @@ def _dfs_table(ctx, g, dfs, bound_param, forward):
         # bound ? parent rank is expressed as neighbour ? bound: parent > lower bound => explore
         want = {'lt': '', 'eq': '', 'gt': 'push'}
         msg = 'backward search: a parent above the lower bound is explored, others are outside the affected window'
-    R.ob('C10-dfs-table', dfs.path, table == want, msg if table == want else 'neighbour-rank vs bound decisions are %s, expected %s' % (table, want), ctx.where(dfs), props=('C10', 'C07') if forward else ('C10',))
+    R.ob('C10-dfs-table', dfs.path, table == want, msg if table == want else 'neighbour-rank vs bound decisions are %s, expected %s' % (table, want), ctx.where(dfs), props=('C10', 'C07', 'C04') if forward else ('C10', 'C07', 'C04'))
     # every neighbour is examined: whatever its rank, the scan of the adjacency continues with the next neighbour (unless a cycle was reported)
     outer = {c.bb for c in dfs.find_calls(lambda c: c.name == 'pop')}
     nxb = {c.bb for c in loop_next}
@@ -1190,7 +1190,7 @@ def _dfs_table(ctx, g, dfs, bound_param, forward):
             cont_ok = False
     R.ob('C10-dfs-continue', dfs.path, cont_ok and bool(loop_next), 'the scan of a node\'s neighbours is never cut short (adjacency is in insertion order, not rank order)' if cont_ok and loop_next
          else 'the scan of a node\'s neighbours can stop early at a neighbour outside the window: later neighbours (possibly the cycle witness) are never examined', ctx.where(dfs),
-         props=('C10', 'C07') if forward else ('C10',))
+         props=('C10', 'C07', 'C04') if forward else ('C10', 'C07', 'C04'))
     if forward:
         # the Err payload is CycleDetected
         ok = True
@@ -1213,9 +1213,9 @@ def _dfs_table(ctx, g, dfs, bound_param, forward):
         starts += [n for n, gd in guard_edges_on_call(dfs, nx) if gd.variants() == frozenset(['Some'])]
     seen = dfs.reach(starts, avoid=ctx.both(inf, lambda n: n in vis_false), stop=lambda n: n in {c.bb for c in loop_next})
     good = bool(vis_false) and not any(p in seen for p in pushes)
-    R.ob('C10-dfs-visited', dfs.path, good, 'a neighbour is pushed only if it has not been visited' if good else 'already-visited neighbours can be pushed again', ctx.where(dfs), props=('C10',))
+    R.ob('C10-dfs-visited', dfs.path, good, 'a neighbour is pushed only if it has not been visited' if good else 'already-visited neighbours can be pushed again', ctx.where(dfs), props=('C10', 'C07'))
     pops = dfs.find_calls(lambda c: c.name == 'pop')
     ins = [c for c in dfs.find_calls(lambda c: c.name == 'insert' and len(c.args) > 1 and any(ctx.base_call_bbs(dfs.orig_operand(c.args[1])) == {p.bb} for p in pops))]
     targets = {tuple(sorted((o.kind, str(o.key)) for o in dfs.orig_operand(c.args[0]))) for c in ins}
     good = len(targets) >= 2
-    R.ob('C10-dfs-result', dfs.path, good, 'every popped node is marked visited and added to the change set' if good else 'popped nodes are not recorded in both the visited set and the result', ctx.where(dfs), props=('C10',))
+    R.ob('C10-dfs-result', dfs.path, good, 'every popped node is marked visited and added to the change set' if good else 'popped nodes are not recorded in both the visited set and the result', ctx.where(dfs), props=('C10', 'C07', 'C04'))
